@@ -13,6 +13,7 @@ import json
 import sys
 
 import anyio
+from guard import guarded_run  # noqa: E402
 from asphalt.core import Context, add_teardown_callback, context_teardown
 
 EXC_CLASSES, BASE_CLASSES = {}, {}
@@ -232,7 +233,7 @@ def main():
             async def runner():
                 with anyio.fail_after(20):
                     return await Run(case["prog"]).main()
-            r = anyio.run(runner, backend=case["backend"])
+            r = guarded_run(runner, backend=case["backend"])
             r["backend"] = case["backend"]
             r["prog"] = case["prog"]
             res.append(r)
